@@ -68,6 +68,12 @@ abbrev Fail := String × String
 
 def legs (r : List P) : List (P × P) := r.zip r.tail
 
+def maxR (a b : Rat) : Rat := if a ≤ b then b else a
+
+/-- (messages only) how far `p` lies outside the rectangle grown by `e` per side (0 = inside) -/
+def outsideBy (e : Rat) (r : Rect) (p : P) : Rat :=
+  maxR 0 (maxR (maxR (r.x0 - e - p.x) (p.x - r.x1 - e)) (maxR (r.y0 - e - p.y) (p.y - r.y1 - e)))
+
 /-- what the explanation code knows about a whole-graph-is-a-tree case (labels only): the growth axis
     (`defaultTreeGrowthDir` EAST/WEST ⇒ x) and the rank distance `treeLayoutScalar_rankSep·IEL = IEL`
     that `Tree::symmetricLayout` puts between the centres of adjacent ranks -/
@@ -107,7 +113,13 @@ def explainEdge (pr : Params) (d : Drawing) (ro : List Nat) (e : Edge) : List Fa
             else if atOverlap then "routeOrthogonal~treeRankOverlap" else "routeOrthogonal"
           out := out ++ [(lab, s!"{tag} leg ({r2s p.x},{r2s p.y})->({r2s q.x},{r2s q.y}) off-axis by {r2s (dev * 1000000000)}e-9")]
   if !edgeEndsOk pr.padE d e then
-    out := out ++ [("routeEndsAtNodes", s!"{tag} ends not within {r2s pr.padE} of its end nodes")]
+    -- message only: how far the first / last route point lies outside the padded box of each end node
+    let offs := match d.node? e.src, d.node? e.tgt, e.route.head?, e.route.getLast? with
+      | some s, some t, some a, some z =>
+        s!": first point ({r2s a.x},{r2s a.y}) is {r2s (outsideBy pr.padE s.box a)} outside padded src {e.src}, {r2s (outsideBy pr.padE t.box a)} outside padded tgt {e.tgt}; " ++
+        s!"last point ({r2s z.x},{r2s z.y}) is {r2s (outsideBy pr.padE s.box z)} outside padded src, {r2s (outsideBy pr.padE t.box z)} outside padded tgt"
+      | _, _, _, _ => ""
+    out := out ++ [("routeEndsAtNodes", s!"{tag} ends not within {r2s pr.padE} of its end nodes{offs}")]
   if !routeAvoidsOthers pr.shrink d e then
     for n in d.nodes do
       if n.id != e.src && n.id != e.tgt && !legsOk [n.box.shrink pr.shrink] e.route then
@@ -201,13 +213,22 @@ def checkCase (c : Case) : CaseResult := Id.run do
   let moved := (n0.zip n1).any (fun (a, b) => a.cx != b.cx || a.cy != b.cy)
   let isTree := e0.size + 1 == n0.size
   let maxDeg := n0.foldl (fun acc n => Nat.max acc ((e0.filter (fun e => e.src == n.id || e.tgt == n.id)).size)) 0
+  -- declaration direction of the edges at the busiest node: edges INTO it (it is their target end) / OUT of it
+  let maxIn := n0.foldl (fun acc n => Nat.max acc ((e0.filter (fun e => e.tgt == n.id)).size)) 0
+  let maxOut := n0.foldl (fun acc n => Nat.max acc ((e0.filter (fun e => e.src == n.id)).size)) 0
+  let bucket (p : String) (v : Nat) : String :=
+    p ++ (if v ≥ 12 then ".12+" else if v ≥ 8 then ".08-11" else if v ≥ 5 then ".05-07" else ".le4")
+  let crowd : List (String × Nat) := match c.get1 "crowd" with
+    | some l => [("crowd.topo." ++ (l[0]?.getD "?"), 1), ("crowd.orient." ++ (l[1]?.getD "?"), 1)]
+    | none => []
   let nb := if n0.size ≤ 10 then "n.05-10" else if n0.size ≤ 25 then "n.11-25" else if n0.size ≤ 40 then "n.26-40" else "n.41+"
   let stats : List (String × Nat) :=
     [("nodes", n0.size), ("edges", e0.size), ("seppairs", seps.size), ("bends", bends), (nb, 1),
      ("opt.aca." ++ o[0]!, 1), ("opt.nearalign." ++ o[1]!, 1), ("opt.aspect." ++ o[5]!, 1), ("opt.growth." ++ (o[7]?.getD "1"), 1),
      (if isTree then "shape.tree" else "shape.cyclic", 1),
-     (if maxDeg ≥ 5 then "maxdeg.5+" else "maxdeg.le4", 1),
-     ("pos." ++ (((c.get1 "pos").bind (·[0]?)).getD "?"), 1), ("size." ++ (((c.get1 "size").bind (·[0]?)).getD "?"), 1)]
+     (if maxDeg ≥ 5 then "maxdeg.5+" else "maxdeg.le4", 1), (bucket "maxdeg" maxDeg, 1),
+     (bucket "maxindeg" maxIn, 1), (bucket "maxoutdeg" maxOut, 1),
+     ("pos." ++ (((c.get1 "pos").bind (·[0]?)).getD "?"), 1), ("size." ++ (((c.get1 "size").bind (·[0]?)).getD "?"), 1)] ++ crowd
   if ok then
     return { verdict := .ok, nontrivial := moved && e1.size > 0, stats := stats ++ [("ok", 1)] }
   let growth := o[7]?.getD "1"
